@@ -1,10 +1,129 @@
 import VOPyVerif.Drv.Proto
-/-! Driver front end for property C02 (line protocol → executable model). -/
+import VOPyVerif.Model.Steps
+/-! Driver front end for property C02 (elimination exactly on a confidence-region certificate).
+
+Index sets are comma-separated naturals (`_` = empty) **without duplicates**, in the iteration
+order of the Python set (any order is accepted; answers are sorted ascending).  An oracle table is
+`<n> <bits>`: `n` designs and the row-major `n·n` string of `0/1`, entry `i·n + j` = the oracle's
+answer for the ordered pair `(i, j)` (`_` when `n = 0`).  Every index must be `< n`.
+Centres / width rows are matrices (`;`-separated rows of `num/den`), all rows of equal length ≥ 1.
+
+* `paveba <S> <U> <n> <dom>`                 → new `S` of the PaVeBa-family `discarding()`
+* `pess <S> <P> <n> <pess>`                  → `compute_pessimistic_set()`; `pess[j][i]` = R_j pess.-dominates R_i
+* `vogp <S> <P> <n> <dom> <pess>`            → new `S` of VOGP / VOGP_AD / ε-PAL `discarding()`
+* `auer <S> <centres> <widths>`              → new `S` of Auer `discarding()`, `widths` row i = width of design i
+* `auerpos <S> <centres> <rows>`             → same, literal mirror: `rows[k]` is read for the k-th element of `S`
+* `elim_paveba <S> <P> <U> <n> <dom> <cov>`  → `S − (S' ∪ P')` after discarding + pareto_updating
+* `elim_vogp <S> <P> <n> <dom> <cov> <pess>` → `S − (S' ∪ P')` after discarding + epsiloncovering
+* `elim_auer <eps> <S> <P> <centres> <widths>` → `S − (S' ∪ P')` after Auer's round, widths by design
+-/
 namespace VOPy.Drv.C02
-open VOPy VOPy.Proto
+open VOPy VOPy.Proto VOPy.Steps
+
+/-- oracle table: `n` and a bit string of length `n*n` -/
+def parseTable (ns bits : String) : Option (Nat × Rel) := do
+  let n ← ns.toNat?
+  let bs ← parseBools bits
+  if bs.length ≠ n * n then none
+  else some (n, fun i j => if i < n ∧ j < n then bs.getD (i * n + j) false else false)
+
+def nodupB (l : List Nat) : Bool :=
+  match l with
+  | [] => true
+  | x :: xs => !xs.contains x && nodupB xs
+
+/-- a valid index set below `n` -/
+def parseSet (n : Nat) (s : String) : Option (List Nat) := do
+  let l ← parseNats s
+  if nodupB l && l.all (· < n) then some l else none
+
+/-- matrix with rows of one common length ≥ 1 -/
+def parseRows (s : String) : Option (List Vec) := do
+  let m ← parseMat s
+  match m with
+  | [] => some []
+  | r :: _ => if r.length ≥ 1 && m.all (fun x => x.length == r.length) then some m else none
+
+def rowFn (m : List Vec) : Nat → Vec := fun i => m.getD i []
+
+def fmtPair (a b : List Nat) : String := fmtNats (sortNat a) ++ ";" ++ fmtNats (sortNat b)
+
+def sameDim (a b : List Vec) : Bool :=
+  match a, b with
+  | x :: _, y :: _ => x.length == y.length
+  | _, _ => true
 
 def handle (args : List String) : String :=
   match args with
+  | ["paveba", s, u, n, d] =>
+    match parseTable n d with
+    | some (n, dom) =>
+      match parseSet n s, parseSet n u with
+      | some S, some U => fmtNats (sortNat (pavebaDiscard dom S U))
+      | _, _ => bad
+    | none => bad
+  | ["pess", s, p, n, t] =>
+    match parseTable n t with
+    | some (n, pd) =>
+      match parseSet n s, parseSet n p with
+      | some S, some P => fmtNats (sortNat (pessimisticSet pd S P))
+      | _, _ => bad
+    | none => bad
+  | ["vogp", s, p, n, d, t] =>
+    match parseTable n d, parseTable n t with
+    | some (n, dom), some (n', pd) =>
+      if n ≠ n' then bad else
+      match parseSet n s, parseSet n p with
+      | some S, some P => fmtNats (sortNat (vogpDiscard dom pd S P))
+      | _, _ => bad
+    | _, _ => bad
+  | ["auer", s, c, w] =>
+    match parseRows c, parseRows w with
+    | some C, some Wd =>
+      if C.length ≠ Wd.length || !sameDim C Wd then bad else
+      match parseSet C.length s with
+      | some S => fmtNats (sortNat (auerDiscard (rowFn C) (rowFn Wd) S))
+      | none => bad
+    | _, _ => bad
+  | ["auerpos", s, c, r] =>
+    match parseRows c, parseRows r with
+    | some C, some R =>
+      if !sameDim C R then bad else
+      match parseSet C.length s with
+      | some S => if S.length ≠ R.length then bad
+                  else fmtNats (sortNat (auerDiscardPos (rowFn C) R S))
+      | none => bad
+    | _, _ => bad
+  | ["elim_paveba", s, p, u, n, d, c] =>
+    match parseTable n d, parseTable n c with
+    | some (n, dom), some (n', cov) =>
+      if n ≠ n' then bad else
+      match parseSet n s, parseSet n p, parseSet n u with
+      | some S, some P, some U =>
+        let r := pavebaRound dom cov S P U
+        fmtNats (sortNat (S.filter (fun i => !r.1.contains i && !r.2.1.contains i)))
+      | _, _, _ => bad
+    | _, _ => bad
+  | ["elim_vogp", s, p, n, d, c, t] =>
+    match parseTable n d, parseTable n c, parseTable n t with
+    | some (n, dom), some (n', cov), some (n'', pd) =>
+      if n ≠ n' || n ≠ n'' then bad else
+      match parseSet n s, parseSet n p with
+      | some S, some P =>
+        let r := vogpRound dom cov pd S P
+        fmtNats (sortNat (S.filter (fun i => !r.1.contains i && !r.2.contains i)))
+      | _, _ => bad
+    | _, _, _ => bad
+  | ["elim_auer", e, s, p, c, w] =>
+    match parseRat e, parseRows c, parseRows w with
+    | some eps, some C, some Wd =>
+      if C.length ≠ Wd.length || !sameDim C Wd then bad else
+      match parseSet C.length s, parseSet C.length p with
+      | some S, some P =>
+        let r := auerRound eps (rowFn C) (rowFn Wd) S P
+        fmtNats (sortNat (S.filter (fun i => !r.1.contains i && !r.2.contains i)))
+      | _, _ => bad
+    | _, _, _ => bad
   | _ => bad
 
 end VOPy.Drv.C02
